@@ -2104,7 +2104,7 @@ package sftp
 
 //@ func marshalUint32
 //@   property C06
-//@   content C06
+//@   content
 //@   ensures len(result) == len(b) + 4
 //@   ensures be32(result, len(b)) == v
 //@   content-ensures forall(i, 0 <= i && i < len(b) ==> result[i] == old(b[i]))
@@ -2113,7 +2113,7 @@ package sftp
 
 //@ func marshalUint64
 //@   property C06
-//@   content C06
+//@   content
 //@   ensures len(result) == len(b) + 8
 //@   ensures be64(result, len(b)) == v
 //@   content-ensures forall(i, 0 <= i && i < len(b) ==> result[i] == old(b[i]))
@@ -2122,7 +2122,7 @@ package sftp
 
 //@ func marshalString
 //@   property C06
-//@   content C06
+//@   content
 //@   ensures len(result) == len(b) + 4 + len(v)
 //@   ensures be32(result, len(b)) == uint32(len(v))
 //@   content-ensures forall(j, 0 <= j && j < len(v) ==> result[len(b) + 4 + j] == v[j])
